@@ -145,6 +145,11 @@ def run(an: Analysis, rep):
     from .common import truthiness_rule
     rep.run(c04.r045, an, SharedRules(rep, "R01.D", "the docstring is co_consts[0] exactly when that is a str - also the empty one (shared with C04's R04.5): otherwise the encoder lays the constants out differently"))
     rep.run(c09.unreferenced_rules, an, SharedRules(rep, "R01.U", "entries no instruction references are listed, each with the override the rank function gives it (shared with C09's R09.3/R09.5): otherwise re-encoding moves them"))
+    from . import c11 as _c11
+    shg = SharedRules(rep, "R01.G", "every flag the decoder took into the data is written back exactly when its datum is set (shared with C11's R11.3): co_flags of the re-encoded object")
+    for V in VERSIONS:
+        rep.run(_c11.r113, an, shg, V, _dispositions(an, V)[0])
+    rep.run(c04.r041, an, SharedRules(rep, "R01.H", "the decoder slices co_varnames into the parameter kinds by the argument counts (shared with C04's R04.1): names bound to the wrong kind re-encode with other counts / flags"))
     from .common import rejection_paths_rule
     shr = SharedRules(rep, "R01.R", "every place where from_code / to_code can stop with an exception is one confirmed by reading (shared with C02's R02.R / C03's R03.R): 'from_code succeeds' for every compiled code object")
     rep.run(rejection_paths_rule, an, shr, "R02.R", ["from_code"], c02.DECODER_REJECTIONS, "from_code")
@@ -180,67 +185,10 @@ def r014(an: Analysis, rep, V, rule="R01.4"):
 
 
 def r016(an: Analysis, rep):
-    """A jump that was encoded with more than one code unit keeps that width, whatever its operand: the minimal width depends on the final layout."""
-    from .c02 import find_parser
-    from .c03 import eval_size, find_size_fn
-    from .encode_model import inline_locals
-    from sa.feval import callable_for_feval
-    import itertools
-    rep.rule("R01.6", "the width of every multi-unit jump is recorded", 1)
-    it, _ = an.interp("from_code")
-    sf = find_size_fn(an)
-    size = callable_for_feval(lambda v: eval_size(an, sf, v))
-    done = False
-    for f in an.closure("from_code"):
-        for n in ast.walk(f.node):
-            if isinstance(n, ast.keyword) and n.arg == "_n_args_override":
-                if isinstance(n.value, ast.Attribute) and n.value.attr == "_n_args_override":
-                    continue  # copied from another instruction: decided where that one was built
-                if isinstance(n.value, ast.Constant):
-                    done = True
-                    rep.add("R01.6", f"{f.qual}::width of multi-unit jumps is recorded", False, loc(f.module, n.value),
-                            f"the decoder stores the constant {n.value.value!r} as the width override: redundant EXTENDED_ARG prefixes of jumps are not reproduced")
-                    continue
-                e = inline_locals(f.node, n.value)
-                # under the Jump branch the variable was assigned from an expression over the unit count; find that assignment
-                defs = [a for a in ast.walk(f.node) if isinstance(a, ast.Assign) and isinstance(n.value, ast.Name) and any(isinstance(t, ast.Name) and t.id == n.value.id for t in a.targets)]
-                cands = [d.value for d in defs if not (isinstance(d.value, ast.Constant) and d.value.value is None)] or [e]
-                for expr in cands:
-                    names = sorted({x.id for x in ast.walk(expr) if isinstance(x, ast.Name)} - {sf.name})
-                    bad = []
-                    # which name is the unit count?  the one for which the policy returns it; try each
-                    ok_any = False
-                    for cnt in names:
-                        others = [x for x in names if x != cnt]
-                        good = True
-                        for nunits in (2, 3, 4):
-                            for combo in itertools.product((0, 1, 255, 256, 70000), repeat=len(others)):
-                                env = {sf.name: size, cnt: nunits}
-                                env.update(dict(zip(others, combo)))
-                                try:
-                                    got = feval(expr, env)
-                                except Exception:
-                                    good = False
-                                    break
-                                if got != nunits:
-                                    good = False
-                                    bad.append((nunits, dict(zip(others, combo)), got))
-                                    break
-                            if not good:
-                                break
-                        if good:
-                            ok_any = True
-                            break
-                    done = True
-                    if not ok_any and not bad:
-                        raise AnalysisError(f"{f.qual}: width override `{norm_src(expr)}` not evaluable")
-                    rep.add("R01.6", f"{f.qual}::width of multi-unit jumps is recorded", ok_any, loc(f.module, expr),
-                            f"`{norm_src(expr)}` records the unit count whenever it is above 1" if ok_any else
-                            f"`{norm_src(expr)}` does not record the width of every jump encoded with more than one unit (e.g. units={bad[0][0]}, {bad[0][1]} -> {bad[0][2]!r}): "
-                            f"whether the prefix is 'needed' depends on the final layout, which is not known while decoding - CPython's peephole pass leaves such "
-                            f"prefixes, and the re-encoded co_code comes out shorter")
-    if not done:
-        raise AnalysisError("assignment of Instruction._n_args_override in the decoder not found")
+    """A jump that was encoded with more than one code unit keeps that width, whatever its operand: the minimal width depends on the final layout.
+    (The statements that decide the recorded width are folded over jump / other x 1..4 units x operand sizes: C11's width_rule.)"""
+    from . import c11
+    c11.width_rule(an, rep, "R01.6", jumps_only=True)
 
 
 def r015_order(an: Analysis, rep):
